@@ -261,6 +261,64 @@ def run(ctx):
                 r4.bad(key, 'grammar recursion %s has no depth guard: deeply nested input overflows the stack' % [re.sub(r"::<'t, 'src>", '', x.split('::')[-1]) for x in sn][:8],
                        loc='%s:%d' % (fx.fns[sn[0]]['file'], fx.fns[sn[0]]['line']))
 
+    # ------------------------------------------------------------------ R8
+    # a loop whose iterations each wrap the node built so far (`CompletedMarker::precede`, directly or in a
+    # helper that takes and returns the completed node) deepens the tree once per iteration without recursing:
+    # it needs the same depth bound as recursion, tested on every iteration and advanced by every wrap.
+    r8 = ctx.rule('C12.R8', 'every loop that wraps the node built so far tests the depth bound on each iteration and advances the depth with each wrap', floor=1, floor_what='wrapping loops')
+    wrapfn = lambda n: re.search(r'parser::parser::CompletedMarker::precede$', n) is not None
+    direct = {k for k in gram if any(True for _ in F(fx.fns[k]).calls(wrapfn))}
+
+    def _wraps(n):
+        return wrapfn(n) or (n in direct and any('CompletedMarker' in str(t) for t in fx.fns[n]['locals'][1:1 + fx.fns[n].get('argc', 0)]))
+    for k in sorted(gram):
+        fn = F(fx.fns[k])
+        loops = [set(c) for c in fn.sccs() if len(c) > 1]
+        if not loops:
+            continue
+        wb = [b for b, nm, t in fn.calls(_wraps)]
+        for comp in loops:
+            inloop = [b for b in wb if b in comp]
+            if not inloop:
+                continue
+            r8.saw()
+            short = re.sub(r"::<'t, 'src>", '', k.split('::')[-1])
+            key = 'wrap-loop|%s' % short
+
+            def pred(op, a, c, bb, fn=fn):
+                if op not in ('Gt', 'Ge', 'Lt', 'Le'):
+                    return None
+                oa, oc = operand_origins(fn, a), operand_origins(fn, c)
+                fa = any(o[0] == 'field' and re.search(r'Parser\.\w*depth', o[1]) for o in oa)
+                fc = any(o[0] == 'field' and re.search(r'Parser\.\w*depth', o[1]) for o in oc)
+                ka = any(o[0] == 'const' for o in oa)
+                kc = any(o[0] == 'const' for o in oc)
+                if fa and kc and not fc:
+                    return op in ('Lt', 'Le')
+                if fc and ka and not fa:
+                    return op in ('Gt', 'Ge')
+                return None
+            seeds = compare_seeds(fn, pred)
+            pos, neg, _ = test_edges(fn, seeds) if seeds else (set(), set(), [])
+            pos_in = {(a, b) for a, b in pos if a in comp and b in comp}
+            incs = {b for b in comp for st in fn.bbs[b]['s'] if st[0] == 'A' and st[2][0] == 'bin' and st[2][1] in ('Add', 'AddWithOverflow')
+                    and st[2][2][0] in ('c', 'm') and any(isinstance(pj, list) and pj[0] == 'f' and re.search(r'Parser\.\w*depth', pj[1]) for pj in st[2][2][1][1])}
+            bad = None
+            for b in inloop:
+                # a cycle through the wrap that avoids the within-bound edge of the depth test
+                g2 = {x: [y for y in fn.g.get(x, []) if y in comp and (x, y) not in pos_in] for x in comp}
+                if _on_cycle(g2, b):
+                    bad = (b, 'an iteration can wrap the node without passing the depth test')
+                    break
+                g3 = {x: [y for y in fn.g.get(x, []) if y in comp and y not in incs] for x in comp if x not in incs}
+                if b not in incs and _on_cycle(g3, b):
+                    bad = (b, 'an iteration can wrap the node without advancing the depth')
+                    break
+            if bad:
+                r8.bad(key, '%s in %s: a long operator chain builds a tree as deep as the chain and overflows the stack when it is walked or dropped' % (bad[1], short), loc=fn.loc(bad[0]))
+            else:
+                r8.ok(key, loc=fn.loc(inloop[0]), detail='%d wrap sites; depth test edges %d; depth increments %d' % (len(inloop), len(pos_in), len(incs)))
+
     # ------------------------------------------------------------------ R5
     r5 = ctx.rule('C12.R5', 'ParseError is built only in Parser::error from the current token range (or the empty range at 0)', floor=1)
     sites = []
@@ -603,4 +661,19 @@ def _decrements_depth(fx, gid):
                 for o in (s[2][2],):
                     if o[0] in ('c', 'm') and any(isinstance(p, list) and p[0] == 'f' and re.search(r'Parser\.\w*depth', p[1]) for p in o[1][1]):
                         return True
+    return False
+
+
+def _on_cycle(g, b):
+    """b lies on a cycle of graph g (adjacency dict)"""
+    seen = set()
+    stack = list(g.get(b, []))
+    while stack:
+        x = stack.pop()
+        if x == b:
+            return True
+        if x in seen:
+            continue
+        seen.add(x)
+        stack.extend(g.get(x, []))
     return False
